@@ -127,7 +127,7 @@ theorem bump_fields (f : Frame) (x : Int) : (bump f x).name = f.name ∧ (bump f
   unfold bump; split <;> simp
 
 theorem bump_totLen (f : Frame) (x : Int) (h1 : -2147483648 ≤ x) (h2 : x < 2147483648) : (bump f x).totLen = max f.totLen x := by
-  unfold bump; rw [toI32_small h1 h2]
+  unfold bump; rw [toI64_small (by omega) (by omega)]
   split
   · show x = max f.totLen x; omega
   · omega
@@ -825,7 +825,7 @@ theorem writeCode_fresh (s : St) (fr : Frame) (rest : List Frame) (defs : List (
   rw [writeCode_struct _ fr rest hact hs rfl]
   by_cases hu : fr.isUnion = true
   · refine ⟨_, by simp [hu]; rfl, ?_, by simp, SameBut_pcs_structs s 0 _⟩
-    have : bump fr 0 = fr := by unfold bump; simp [toI32_def, ht]
+    have : bump fr 0 = fr := by unfold bump; simp [toI64_def, ht]
     simp [this]
   · refine ⟨_, by simp [hu]; rfl, by simp [hs], by simp [wrap64_def, hp], ?_⟩
     exact SameBut_pcs s _
